@@ -10,6 +10,12 @@ CHECKS = [
         "note": "Trusted: Lean kernel; verif-extract; the harness; goja's ToInteger/IsNumber and Go's float32 conversion are modelled (bit-level) and only exercised, not proved. The end-to-end theorem model_refines_spec composes the building blocks for every method name, buffer and argument tuple of the claimed domain.",
     },
     {
+        "property_id": "C11",
+        "technique": "Lean 4 proof (round trips by induction with per-byte facts decided over all 256 bytes in the kernel; UTF-8/UTF-16 arithmetic by omega) + differential correspondence of the codec model and the implementation",
+        "text": "Theorems, for every byte sequence / string / range with no bound: hex, base64 and base64url decode(encode(b)) = b (one lenient base64 decoder accepts both alphabets, optional padding, line breaks); utf8 round trip for exactly the well-formed byte sequences (validUtf8 b <-> b is the encoding of some scalar list); UTF-16 <-> scalar values lossless; toString(enc,start,end) = encode of the clamped sub-range for all integers start/end and the sub-range is in bounds; buf.write stores a prefix of the decoded string that fits, is the encoding of a prefix of the string's characters (never part of a multi-byte sequence) and leaves other bytes unchanged; alloc fill repeats the decoded pattern, zeros when empty; from(array-like) stores elements mod 256. The model is a hand transcription of buffer.go's codec paths, tied on every run by running model and real Buffer (JS entry points and the Go helpers DecodeBytes/EncodeBytes) on the same generated inputs; agreement of all entry points is checked because each is compared with the same model function.",
+        "note": "Trusted: Lean kernel; the harness; goja string conversion. Go's hex/base64/utf8 library behaviour is modelled, exercised, not verified. Sharing semantics of from(ArrayBuffer) is observed by the harness (mutation visible through both views), not modelled beyond a flag.",
+    },
+    {
         "property_id": "C19",
         "technique": "Lean 4 proof (refinement of the single-pass formatter to tokenise+render, by functional induction) + regenerated console sink table + differential correspondence",
         "text": "Theorem format_eq_spec: for every format string and every argument list (and every rendering of the arguments) the code's single pass with its pending-percent flag and argument cursor equals positional rendering of the tokenised string; corollaries: format(f) = f for every f (all '%', '%%', '%x' and a final '%' kept), literals preserved, %s/%d/%j take the next unused argument, surplus arguments appended after single spaces, a directive with no argument left stays. console: the sink table is re-extracted from console/module.go and proved equal to log/info/debug->Log, warn->Warn, error->Error; one message per call in call order. The model is tied to the code by running both on generated calls (util.format and console through a recording Printer).",
